@@ -432,6 +432,9 @@ def related_array(rng, cur, kind=None):
         kinds += ['same ends, other spacing', 'one interior entry moved']
     if n >= 4 and len(set(cur[1:-1].tolist())) > 1:
         kinds.append('interior permuted')
+    if n >= 3:
+        # round 8: settings reusing cached ordinates for entries that were present before (seeds C04-r8-1/2)
+        kinds += ['strict subset (first entry dropped)', 'strict subset (every second entry)', 'reversed order', 'subset in reversed order']
     if kind is None:
         kind = rng.choice(kinds[1:] + kinds[2:])          # the relatives that differ inside get double weight, a plain repeat a small one
         if rng.random() < 0.12:
@@ -455,6 +458,21 @@ def related_array(rng, cur, kind=None):
         j = rng.randrange(1, n - 1)
         nb = cur[j + 1] if rng.random() < 0.5 else cur[j - 1]
         out[j] = cur[j] + 0.37 * (nb - cur[j]) if nb != cur[j] else cur[j] * 1.01 + 1e-3
+    elif kind == 'strict subset (first entry dropped)':
+        k0 = 1 if cur[0] != 0 else min(2, n - 1)             # a leading 0 stays in front
+        out = np.concatenate([cur[:1], cur[k0 + 1:]]) if cur[0] == 0 and n >= 4 else cur[1:]
+    elif kind == 'strict subset (every second entry)':
+        out = cur[::2] if rng.random() < 0.5 else cur[1::2]
+        if len(out) < 1:
+            return None
+    elif kind == 'reversed order':
+        if cur[0] == 0:
+            return None
+        out = cur[::-1].copy()
+    elif kind == 'subset in reversed order':
+        if cur[0] == 0:
+            return None
+        out = cur[::-1][::2].copy()
     elif kind == 'interior permuted':
         inner = cur[1:-1].tolist()
         for _ in range(20):
